@@ -1,9 +1,7 @@
 #!/bin/bash
-# mkbreaker.sh <ID> — creates the scratch worktree /tmp/brk-<ID> (+ pre-seeded target) and prints the prompt
-ID="$1"; WT=/tmp/brk-$ID
+# mkbreaker.sh <ID> [suffix] — creates the scratch worktree /tmp/brk-<ID><suffix> and writes the prompt to /verif/target/brk-prompt-<ID><suffix>.txt
+ID="$1"; SUF="${2:-}"; WT=/tmp/brk-$ID$SUF
 git -C /repo worktree add --detach $WT HEAD >/dev/null 2>&1 || { echo "worktree failed"; exit 1; }
-mkdir -p $WT/target/debug $WT/out
-# dependencies only (registry crates); workspace crates rebuild in the new path
-rsync -a /repo/target/debug/deps /repo/target/debug/build /repo/target/debug/.fingerprint $WT/target/debug/ 2>/dev/null
-cp /repo/target/CACHEDIR.TAG $WT/target/ 2>/dev/null
-/verif/tools/breaker_prompt.py $ID $WT
+mkdir -p $WT/out
+/verif/tools/breaker_prompt.py $ID $WT > /verif/target/brk-prompt-$ID$SUF.txt
+echo "$WT ready"
